@@ -265,14 +265,14 @@ impl Graph {
             .iter()
             .to_markdown(&key.parent(), &self.markdown_options);
 
-        if self.metadata.contains_key(key) {
-            format!(
-                "---\n{}---\n\n{}",
-                self.metadata.get(key).unwrap(),
-                markdown
-            )
-        } else {
-            format!("{}", markdown)
+        self.with_front_matter(key, markdown)
+    }
+
+    /// `markdown` preceded by the front matter of the note `key`, if it has any
+    pub fn with_front_matter(&self, key: &Key, markdown: String) -> String {
+        match self.metadata.get(key) {
+            Some(meta) => format!("---\n{}---\n\n{}", meta, markdown),
+            None => markdown,
         }
     }
 
